@@ -331,9 +331,9 @@ example : effectiveReadGroup .unset [sampleA, sampleN] = effectiveReadGroup .uns
 theorem parsed_sample_depends_on_own_entry (pfx : String) (entries : List YamlEntry) (ns : List String)
     (hnames : entries.map YamlEntry.name = ns.map some) (hnd : ns.Nodup) :
     parseYaml pfx entries = parseEachOwn (entries.zip ns) := by
-  have h := yamlLoop_own pfx entries ns ParseSt.init [] []
+  have h := yamlLoop_own renameRuleOfSource.yaml pfx entries ns ParseSt.init [] []
     ⟨rfl, by simp [ParseSt.init], by simp [ParseSt.init, hasKey], by simp [ParseSt.init]⟩ hnames hnd (by simp)
-  unfold parseYaml
+  unfold parseYaml parseYamlR
   rw [h]
   cases parseEachOwn (entries.zip ns) <;> simp
 
@@ -404,8 +404,8 @@ theorem parsed_list_sample_depends_on_own_entry (pfx : String) (blocks : List (S
   have hI : ListInv ⟨ParseSt.init, [], pfx⟩ [] [] :=
     ⟨by simp [ListSt.flush, finishParse, ParseSt.init], by simp [ListSt.flush, ParseSt.init],
      by simp [ParseSt.init, hasKey], by simp [ListSt.flush, ParseSt.init]⟩
-  have h := listLoop_blocks pfx blocks ⟨ParseSt.init, [], pfx⟩ [] [] hI hne hnd (by simp)
-  unfold parseList
+  have h := listLoop_blocks renameRuleOfSource.list pfx blocks ⟨ParseSt.init, [], pfx⟩ [] [] hI hne hnd (by simp)
+  unfold parseList parseListR
   rw [h]
   cases parseEachOwnBlock blocks <;> simp
 
